@@ -96,7 +96,7 @@ PROPS = {
     'C02': dict(coq='Properties/C02.v', drivers=[_broker('C02', 120, 2500)], rule=BROKER_RULE, assumptions=BROKER_ASSUME),
     'C05': dict(coq='Properties/C05.v', drivers=[_broker('C05', 120, 2500), _storm('C05', 'cut,teardown', 3, 40)], rule=BROKER_RULE, assumptions=BROKER_ASSUME),
     'C07': dict(coq='Properties/C07.v', drivers=[_broker('C07', 120, 2500), _storm('C07', 'ackeffect', 3, 30)], rule=BROKER_RULE, assumptions=BROKER_ASSUME),
-    'C08': dict(coq='Properties/C08.v', drivers=[_broker('C08', 120, 2500), _storm('C08', 'churn', 2, 30)], rule=BROKER_RULE, assumptions=BROKER_ASSUME),
+    'C08': dict(coq='Properties/C08.v', drivers=[_broker('C08', 120, 2500), _storm('C08', 'churn,retrace', 2, 30)], rule=BROKER_RULE, assumptions=BROKER_ASSUME),
     'C09': dict(coq='Properties/C09.v', drivers=[_broker('C09', 120, 2500)], rule=BROKER_RULE, assumptions=BROKER_ASSUME),
     'C10': dict(coq='Properties/C10.v', drivers=[_broker('C10', 120, 2500)], rule=BROKER_RULE, assumptions=BROKER_ASSUME),
     'C11': dict(coq='Properties/C11.v', drivers=[_broker('C11', 120, 2500)], rule=BROKER_RULE, assumptions=BROKER_ASSUME),
